@@ -20,4 +20,18 @@ PROPS = {
                      {"variant": "fast", "name": "tier-sse42", "env": {"ZIPORA_VERIF_CPU_TIER": "sse42"}, "budget_s": 300, "scale": 0.25},
                      {"variant": "fast", "name": "tier-scalar", "env": {"ZIPORA_VERIF_CPU_TIER": "scalar"}, "budget_s": 300, "scale": 0.25}],
     },
+    "C16": {
+        "level": "exploration",
+        "technique": "runtime monitoring: controlled schedule-point scheduler (random/PCT/stall scripts) with shadow token registry + invariant at every schedule point; free-running stress; Miri and AddressSanitizer on the same histories",
+        "level_text": "2-3 client threads run short acquire/release/cache histories against one VersionManager/TokenManager under a scheduler that serialises them at hook points inside the token code; a shadow registry of live tokens decides writer exclusion, min_version <= every live token, reclamation callbacks and counter agreement at every schedule point; sequential multi-manager lifetime histories run natively (count bounds), under AddressSanitizer and under Miri (use-after-free / data race reports). Interleavings are sampled (distinct schedule hashes are counted), not enumerated.",
+        "level_note": "Trusted: the harness registry (register after acquire returns, deregister before drop - sound because only one participant runs between schedule points); hook sites are the only pre-emption points in controlled mode, other windows are reached only by the free-running/Miri/TSan passes. Weak-memory behaviour limited to Miri's model and x86.",
+        "rule": "case = one execution: (target, generated op lists per thread, strategy, scheduler seed). Non-trivial: >= 4 schedule steps (conc) / >= 4 ops (lifetime). Distinct: distinct (target, ops, schedule-trace hash).",
+        "assumptions": ["schedule points are only at verif-hooks sites and between client operations", "token versions are unique per token in the synchronised levels (used to recognise cache hits)"],
+        "required_sites": [500, 501, 509, 510, 520, 530],
+        "quick": [q(60), {"variant": "asan", "name": "asan", "scale": 0.25, "budget_s": 60, "leaks": 1},
+                  {"variant": "miri", "name": "miri", "shards": 12, "budget_s": 200, "timeout_s": 900}],
+        "thorough": [q(900), {"variant": "asan", "name": "asan", "scale": 0.3, "budget_s": 600, "leaks": 1},
+                     {"variant": "tsan", "name": "tsan", "targets": ["stress/*"], "budget_s": 600, "scale": 0.5, "shards": 4},
+                     {"variant": "miri", "name": "miri", "shards": 16, "budget_s": 900, "timeout_s": 3000, "scale": 8, "args": []}],
+    },
 }
